@@ -87,7 +87,7 @@ def run_lifecycle(hist, max_handles=3):
                     return None, m, True
                 if any(g['clear'] for g in m.groups.values()) or (clear and m.groups):
                     return None, m, True        # two groups on one directory where one clears: not specified
-                expect_refusal = m.exists and not reuse
+                expect_refusal = dir_state(d) and not reuse       # the statement speaks about a NON-EMPTY directory
                 try:
                     ds = pipeline().diskcache(cache_dir=d, reuse=reuse, clear=clear)
                 except RuntimeError as e:
@@ -141,6 +141,7 @@ def run_lifecycle(hist, max_handles=3):
                 if h not in m.handles:
                     return None, m, True
                 g = m.handles.pop(h)
+                existed = dir_state(d)
                 del real[h]
                 gc.collect()
                 m.groups[g]['live'] -= 1
@@ -149,7 +150,8 @@ def run_lifecycle(hist, max_handles=3):
                     if clear:
                         m.exists = False
                         m.stored = set()
-                    if dir_state(d) != m.exists and not m.groups:
+                    want = False if clear else existed
+                    if dir_state(d) != want and not m.groups:
                         return (n, ev, f'after releasing the last dataset of a clear={clear} cache the directory '
                                        f'{"still exists" if dir_state(d) else "is gone"}'), m, False
                 elif not dir_state(d):
